@@ -243,6 +243,16 @@ func GenWorld(r *Run, o GenOpts) *World {
 		ss = sliceSizes
 	}
 	w.S = ss[t.Draw(len(ss), "slicesize")]
+	if len(o.SliceSizes) == 0 && t.Bool(1, 100, "huge-slice") {
+		// (gopar pads a fresh copy of the window at each of the last S
+		// offsets of a damaged file, so these runs cost O(S^2))
+		hs := []int{16384, 16388, 32768, 65536, 65540}
+		if !r.Thorough() {
+			hs = hs[:3]
+		}
+		w.S = hs[t.Draw(len(hs), "huge-slice-size")]
+		r.Probe("slice>=16KiB")
+	}
 	maxTotal := o.MaxTotal
 	if maxTotal <= 0 {
 		maxTotal = 48 << 10
@@ -277,7 +287,16 @@ func GenWorld(r *Run, o GenOpts) *World {
 		if o.Par1 {
 			S = 64
 		}
-		switch t.Pick([]int{4, 3, 3, 3, 1, 1, 1, 2}, "sizeclass") {
+		switch t.Pick([]int{8, 6, 6, 6, 2, 2, 2, 4, 1, 1}, "sizeclass") {
+		case 8:
+			// powers of two and their neighbours
+			size = (1 << uint(5+t.Draw(13, "pow2"))) + t.Draw(3, "pow2-d") - 1
+			if size > 70000 && !r.Thorough() {
+				size = 65535 + t.Draw(3, "pow2-64k")
+			}
+		case 9:
+			// multiples of 16384 and their neighbours
+			size = 16384*(1+t.Draw(4, "k16")) + t.Draw(3, "k16-d") - 1
 		case 0:
 			size = 1 + t.Draw(40, "size")
 		case 1:
@@ -441,7 +460,7 @@ func GenWorld(r *Run, o GenOpts) *World {
 	} else {
 		w.R = 1 + t.Pick(weightsFirst(maxR, 2), "recovery")
 		if maxR >= 8 && t.Bool(1, 15, "manyrecovery") {
-			w.R = []int{17, 33, 100, 130}[t.Draw(4, "recovery-n")]
+			w.R = []int{17, 33, 100, 130, 255, 256, 257}[t.Draw(7, "recovery-n")]
 			if w.S > 256 && w.R > 33 {
 				w.R = 33
 			}
